@@ -24,5 +24,5 @@ CHECK = {
         "a case whose table changed between the two snapshots around the observation is discarded and counted",
         "the discv5 request timeout of the responder is raised to 20 s so that background revalidation cannot evict harness nodes during a case",
     ],
-    "required_classes": {"quick": ["truncated-by-size", "e2e-datagram-measured", "distance-0", "invalid-distance", "some-rejected", "some-accepted", "enr:badsig", "asker:public", "moved-unverified-entry-in-covered-bucket"]},
+    "required_classes": {"quick": ["truncated-by-size", "e2e-datagram-measured", "distance-0", "invalid-distance", "some-rejected", "some-accepted", "enr:badsig", "asker:public", "moved-unverified-entry-in-covered-bucket", "asker-record-names-another-address-class-than-the-packet-source"]},
 }
